@@ -21,6 +21,7 @@ mod c13;
 mod c11;
 mod c12;
 mod c17;
+mod c17_kad;
 mod c18;
 mod c20;
 mod c19;
